@@ -94,3 +94,20 @@ Proof. exact wr_drain_bytes_spec. Qed.
 
 Example C02_word_default_ok : wr_ok wr_default /\ wr_bits wr_default = [].
 Proof. exact wr_default_ok. Qed.
+
+(* ---- the compressor as a sequence of BitWriter calls (Model/WFile.v: header, Flags::write,
+   chunk = magic byte, ChunkMetadata::write_to with a zero body-size placeholder, the body as
+   compress_nums writes it, finish_byte, overwrite_usize of the placeholder, footer, drain_bytes;
+   every call on the 64-bit-word writer of Words.v) drains exactly the bytes of the format model *)
+From QCo.Model Require Import WFile.
+From QCo.Lemmas Require Import WFileL.
+
+Theorem C02_word_level_compressor_is_file_bytes : forall d f chunks bytes,
+  Forall (chunk_ok d f) chunks -> file_bytes d f chunks = Ok bytes -> wfile_bytes d f chunks = Ok bytes.
+Proof. exact wfile_bytes_eq. Qed.
+
+(* ... also when the range of each number is found through the CompressionTable transcription *)
+Theorem C02_word_level_compressor_with_table_lookup : forall d f chunks bytes,
+  Forall (fun c => wchunk_ok c /\ ct_valid (snd c) /\ ct_pos (snd c)) chunks ->
+  file_bytes d f chunks = Ok bytes -> wfile_bytes_ct d f chunks = Ok bytes.
+Proof. exact wfile_bytes_ct_eq. Qed.
